@@ -140,6 +140,10 @@ pub struct Profile {
     pub extra: usize,
     /// pattern-less (options only), `*` and single-character patterns
     pub tiny_patterns: bool,
+    /// raw non-ASCII letters in probe URLs. Only for checks whose oracle indexes the *same* rule
+    /// list the same way (C05, C08): the URL tokenizer is Unicode-aware while the separator `^` is
+    /// byte-based, so whether a rule is found for such a URL depends on its bucket (C01).
+    pub non_ascii_urls: bool,
 }
 
 pub const HOSTS: &[&str] = &[
@@ -186,7 +190,7 @@ pub const TYPE_OPTS: &[&str] = &[
     "other",
 ];
 pub const TAGS: &[&str] = &["t1", "t2", "t3"];
-pub const REDIRECTS: &[&str] = &["noop.js", "1x1.gif", "noop.txt", "missing.js", "perm.js", "nooptext", "fnlib.fn"];
+pub const REDIRECTS: &[&str] = &["noop.js", "1x1.gif", "noop.txt", "missing.js", "perm.js", "nooptext", "fnlib.fn", "noop-alt", "1x1-blank.gif", "blank", "noopjs"];
 pub const CSPS: &[&str] = &["script-src 'none'", "img-src 'self'", "frame-src *", "worker-src 'none'"];
 pub const CLASSES: &[&str] = &["ad", "ads", "banner", "sponsor", "promo", "box"];
 pub const IDS: &[&str] = &["top", "side", "ad-slot", "footer"];
@@ -414,10 +418,20 @@ pub fn standard_resources() -> Vec<ResSpec> {
         mk("frame.html", &[], "html", "<html></html>", &[], 0),
         mk("permlib.fn", &[], "fn", "function permlib() { return 3; }", &[], 1),
         mk("usesperm.js", &["usesperm"], "js", "function usesperm(a) { permlib(); }", &["permlib.fn"], 0),
+        // resources whose identifiers overlap with the ones above: adding them must be rejected as
+        // a whole (no identifier of a rejected resource may stay registered)
+        mk("alt-noop.js", &["noop-alt", "noopjs"], "js", "(function() { /* alt */ })();", &[], 0),
+        mk("noop-alt", &[], "txt", "alt", &[], 0),
+        mk("blank.gif", &["1x1-blank.gif", "1x1-transparent.gif", "blank"], "gif", "GIF89a-blank", &[], 0),
+        mk("1x1-blank.gif", &["blank2"], "gif", "GIF89a-blank2", &[], 0),
     ]
 }
 
 pub fn gen_url(r: &mut Rng) -> String {
+    gen_url_t(r, false)
+}
+
+pub fn gen_url_t(r: &mut Rng, non_ascii: bool) -> String {
     let scheme = match r.below(20) {
         0..=12 => "https",
         13..=16 => "http",
@@ -435,6 +449,9 @@ pub fn gen_url(r: &mut Rng) -> String {
             0 => s.push_str(&format!("{}-{}", seg, r.pick(SEGS))),
             1 => s.push_str(&format!("x-{}-y", seg)),
             2 => s.push_str(&seg.to_uppercase()),
+            // a raw non-ASCII letter right after the segment: a separator for byte-mode regexes,
+            // a word character for Unicode-mode ones
+            3 if non_ascii && r.chance(50) => s.push_str(&format!("{}{}", seg, r.pick(&["é", "ü", "漢", "éa"]))),
             _ => s.push_str(seg),
         }
     }
@@ -460,7 +477,11 @@ pub fn gen_url(r: &mut Rng) -> String {
 }
 
 pub fn gen_probe(r: &mut Rng) -> Probe {
-    let url = gen_url(r);
+    gen_probe_t(r, false)
+}
+
+pub fn gen_probe_t(r: &mut Rng, non_ascii: bool) -> Probe {
+    let url = gen_url_t(r, non_ascii);
     // Requests without a source are not generated: whether a `domain=` rule is found for them
     // depends on which bucket the rule was indexed under (an index-completeness question, C01),
     // and that would leak into every history oracle. One fixed witness covers it (known finding).
@@ -561,6 +582,20 @@ pub fn gen_world(seed: u64, p: &Profile) -> World {
                 rules.push(Rule { spec: RuleSpec::Net(sib), perm });
             }
         }
+        // derived siblings: the same rule with a longer pattern that contains the original one
+        if r.chance(12) && !nr.pat.is_empty() && !nr.opts.iter().any(|o| o == "match-case" || o.starts_with("removeparam")) && !(nr.pat.starts_with('/') && nr.pat.ends_with('/') && nr.pat.len() > 1) {
+            let mut sib = nr.clone();
+            let (body, tail) = match nr.pat.strip_suffix('|') {
+                Some(b) => (b.to_string(), "|"),
+                None => (nr.pat.clone(), ""),
+            };
+            sib.pat = match r.below(3) {
+                0 => format!("{}?{}={}{}", body, r.pick(QKEYS), "1", tail),
+                1 => format!("{}x{}", body, tail),
+                _ => format!("{}/{}{}", body, r.pick(SEGS), tail),
+            };
+            rules.push(Rule { spec: RuleSpec::Net(sib), perm });
+        }
         if p.badfilter && r.chance(6) {
             let mut bf = nr.clone();
             bf.opts.push("badfilter".to_string());
@@ -568,6 +603,17 @@ pub fn gen_world(seed: u64, p: &Profile) -> World {
             rules.push(Rule { spec: RuleSpec::Net(bf), perm });
         }
         rules.push(Rule { spec: RuleSpec::Net(nr), perm });
+    }
+    // occasionally one large group of rules with identical options in one bucket, with sizes around
+    // powers of two (chunking / batching boundaries)
+    if r.chance(4) {
+        let size = *r.pick(&[31usize, 32, 33, 63, 64, 65, 66, 127, 128, 129, 130]);
+        let seg = pick_s(&mut r, SEGS);
+        let opts: Vec<String> = if r.chance(50) { vec![] } else { vec![pick_s(&mut r, &["script", "image", "3p"])] };
+        let exc = r.chance(20);
+        for k in 0..size {
+            rules.push(Rule { spec: RuleSpec::Net(NetRule { exc, pat: format!("/{}/u{:03}", seg, k), opts: opts.clone(), tag: None }), perm: 0 });
+        }
     }
     r.shuffle(&mut rules);
 
@@ -594,7 +640,46 @@ pub fn gen_world(seed: u64, p: &Profile) -> World {
     }
 
     let nprobes = r.range(p.n_probes.0, p.n_probes.1);
-    let mut probes: Vec<Probe> = (0..nprobes).map(|_| gen_probe(&mut r)).collect();
+    let mut probes: Vec<Probe> = (0..nprobes).map(|_| gen_probe_t(&mut r, p.non_ascii_urls)).collect();
+    // rule-directed probes: URLs built from a rule's own pattern, so that long / anchored / derived
+    // patterns have a request that matches them and not only their shorter neighbours
+    {
+        let mut directed = 0;
+        let mut order: Vec<usize> = (0..rules.len()).collect();
+        r.shuffle(&mut order);
+        for i in order {
+            if directed >= 14 {
+                break;
+            }
+            if let RuleSpec::Net(n) = &rules[i].spec {
+                if let Some(url) = url_for_pattern(&mut r, &n.pat) {
+                    let mut pr = gen_probe(&mut r);
+                    pr.url = url;
+                    if r.chance(50) {
+                        // a request type the rule's options accept, if it names one
+                        for o in &n.opts {
+                            let t = match o.as_str() {
+                                "script" => "script",
+                                "image" => "image",
+                                "stylesheet" => "stylesheet",
+                                "xhr" => "xmlhttprequest",
+                                "subdocument" => "subdocument",
+                                "websocket" => "websocket",
+                                "document" => "document",
+                                "font" => "font",
+                                "other" => "other",
+                                _ => continue,
+                            };
+                            pr.rtype = t.to_string();
+                            break;
+                        }
+                    }
+                    probes.push(pr);
+                    directed += 1;
+                }
+            }
+        }
+    }
     // make sure document/subdocument probes exist for csp and removeparam
     for i in 0..probes.len() {
         if i % 5 == 0 {
@@ -641,4 +726,32 @@ pub fn gen_world(seed: u64, p: &Profile) -> World {
         tags: TAGS.iter().map(|s| s.to_string()).collect(),
         knobs,
     }
+}
+
+
+/// A URL that the pattern is meant to match (best effort; complete regexes are skipped).
+pub fn url_for_pattern(r: &mut Rng, pat: &str) -> Option<String> {
+    if pat.is_empty() || pat == "*" || (pat.len() > 1 && pat.starts_with('/') && pat.ends_with('/') && !pat[1..pat.len() - 1].chars().all(|c| c.is_ascii_alphanumeric() || c == '/')) {
+        return None;
+    }
+    let fill = |s: &str| -> String { s.replace('*', "x1").replace('^', "/") };
+    let right = pat.ends_with('|');
+    let core = pat.trim_end_matches('|');
+    let url = if let Some(rest) = core.strip_prefix("||") {
+        format!("https://{}", fill(rest))
+    } else if let Some(rest) = core.strip_prefix('|') {
+        fill(rest)
+    } else {
+        let h = *r.pick(HOSTS);
+        let body = fill(core);
+        if body.starts_with('/') {
+            format!("https://{}{}", h, body)
+        } else {
+            format!("https://{}/{}/{}", h, r.pick(SEGS), body)
+        }
+    };
+    if !url.contains("://") {
+        return None;
+    }
+    Some(if right || r.chance(50) { url } else { format!("{}{}", url, r.pick(&["", ".js", "/x.gif", "?q=1"])) })
 }
